@@ -9,7 +9,7 @@
     (crossing positions exact on the lattice: C12) is tied by the command-level
     correspondence against planted datasets. *)
 From Spowtd Require Import Model.FitOffsets Model.Views Proofs.QSum Proofs.FitOffsetsSpec Proofs.FindOffsetsSpec
-  Proofs.PlantedViewSpec.
+  Proofs.ViewsSpec Proofs.PlantedViewSpec.
 
 Theorem C06_planted_curve_recovered : forall hm sids offs (T : Z -> Q) (cs : nat -> Q),
   find_offsets hm = Ok (sids, offs) ->
@@ -66,6 +66,24 @@ Theorem C06_master_curve_differences : forall E x (T : Z -> Q) k,
   head_mean E x h - head_mean E x h' == T h - T h'.
 Proof. exact planted_curve_differences. Qed.
 Print Assumptions C06_master_curve_differences.
+
+(** "Up to the choice of origin", with the origin the commands actually use: after
+    the writers' shift by the level mean at the reference level the constant is
+    gone and the view shows T(level) - T(reference) at every listed level
+    (hence 0 at the reference, C09). *)
+Theorem C06_view_from_reference_is_planted_curve :
+  forall offsets crossings grid step ref (T : Z -> Q) (k : Q),
+  NoDup grid ->
+  let E := aligned_entries offsets crossings in
+  let x := offset_of offsets in
+  (forall c, In c E -> x (e_series c) + e_val c == T (e_head c) + k) ->
+  In ref (view_levels offsets crossings grid) ->
+  forall h, In h (view_levels offsets crossings grid) ->
+    exists v, In (inject_Z h * step, v)
+                 (view_average (store_with_reference offsets crossings ref) crossings grid step) /\
+              v == T h - T ref.
+Proof. exact planted_view_from_reference. Qed.
+Print Assumptions C06_view_from_reference_is_planted_curve.
 
 (** Non-vacuity: three pieces of T(h) = 10 - 2h with constants 0, 5, -3. *)
 Example C06_example :
